@@ -1,4 +1,5 @@
 //! Kani harnesses over rust-works/succinctly (see /verif/DESIGN.md).
+#![cfg_attr(kani, feature(allocator_api))]
 #![allow(unused)]
 #![allow(clippy::all)]
 
